@@ -232,9 +232,12 @@ def run(rep, repo, tier):
             bits=4, max_value=mv, negative_slope=slope, use_ste=ste,
             qnoise_factor=fs)
   for cls, kw in itertools.chain(qref.lattice_all(tier), steep_slopes()):
-    if cls == "bernoulli":
-      continue   # documented always-random; not in the property
     phases = ["infer"]
+    if cls == "bernoulli":
+      # always random (training and inference alike): only the gradient
+      # clause applies - the draw sits inside the stop_gradient, so the
+      # derivative is that of the surrogate (identity) whatever the scale
+      phases = ["train"]
     if kw.get("use_stochastic_rounding") or cls.startswith("stochastic_"):
       phases.append("train")
     for ph in phases:
